@@ -96,6 +96,73 @@ pub fn build(g: &Value) -> Root {
     Root(nodes[0].clone())
 }
 
+/// the nodes in pre-order of first encounter (by pointer identity)
+pub fn preorder(root: &Root) -> Vec<NodeRef> {
+    let mut seen: Vec<*const RefCell<Node>> = Vec::new();
+    let mut order: Vec<NodeRef> = Vec::new();
+    let mut stack: Vec<NodeRef> = vec![root.0.clone()];
+    while let Some(x) = stack.pop() {
+        let p = Rc::as_ptr(&x.0);
+        if seen.contains(&p) {
+            continue;
+        }
+        seen.push(p);
+        order.push(x.clone());
+        for t in x.0.borrow().succ.iter().rev() {
+            stack.push(t.clone());
+        }
+    }
+    order
+}
+
+lazy_static::lazy_static! {
+    static ref CROSS_METADATA: desert_core::adt::AdtMetadata = desert_core::adt::AdtMetadata::new(vec![
+        desert_core::Evolution::InitialVersion,
+        desert_core::Evolution::FieldAdded { name: "b".to_string() },
+    ]);
+}
+/// a record with a header whose second field (chunk 1) shares an object with the first (chunk 0)
+pub struct Cross {
+    pub a: Root,
+    pub b: NodeRef,
+}
+struct RefOnly<'a>(&'a NodeRef);
+impl<'a> BinarySerializer for RefOnly<'a> {
+    fn serialize<O: BinaryOutput>(&self, ctx: &mut SerializationContext<O>) -> desert_core::Result<()> {
+        if ctx.store_ref_or_object(&*(self.0).0)? {
+            write_body(self.0, ctx)?;
+        }
+        Ok(())
+    }
+}
+struct ReadRef(NodeRef);
+impl BinaryDeserializer for ReadRef {
+    fn deserialize(ctx: &mut DeserializationContext<'_>) -> desert_core::Result<Self> {
+        Ok(ReadRef(read_ref(ctx)?))
+    }
+}
+impl BinarySerializer for Cross {
+    fn serialize<O: BinaryOutput>(&self, ctx: &mut SerializationContext<O>) -> desert_core::Result<()> {
+        let mut s = desert_core::adt::AdtSerializer::new(&CROSS_METADATA, ctx);
+        s.write_field("a", &self.a)?;
+        s.write_field("b", &RefOnly(&self.b))?;
+        s.finish()
+    }
+}
+impl BinaryDeserializer for Cross {
+    fn deserialize(ctx: &mut DeserializationContext<'_>) -> desert_core::Result<Self> {
+        let stored = ctx.read_u8()?;
+        let mut d = if stored == 0 {
+            desert_core::adt::AdtDeserializer::new_v0(&CROSS_METADATA, ctx)?
+        } else {
+            desert_core::adt::AdtDeserializer::new(&CROSS_METADATA, ctx, stored)?
+        };
+        let a: Root = d.read_field("a", None)?;
+        let b: ReadRef = d.read_field("b", None)?;
+        Ok(Cross { a, b: b.0 })
+    }
+}
+
 /// canonical form of an object graph: nodes numbered in pre-order of first encounter, by pointer identity
 pub fn canon(root: &Root) -> Value {
     let mut ids: HashMap<*const RefCell<Node>, usize> = HashMap::new();
@@ -169,6 +236,28 @@ pub fn graph_case(case: &Value, _dispatch: Dispatch, r: &mut Report) {
             &["C10"],
             json!({"g": g, "bytes": b, "want": case["canon"], "got": crate::ops::outcome_json(&got, |x| json!({"g": x.0, "left": x.1}))}),
         );
+    }
+    // sharing across the chunks of a record with a header: field `a` (chunk 0) is the graph, field `b` (chunk 1,
+    // added later) refers to the k-th object of it
+    for x in case.get("cross").and_then(|c| c.as_array()).map(|a| a.as_slice()).unwrap_or(&[]) {
+        r.count("graph_cross");
+        let k = x[0].as_u64().unwrap() as usize;
+        let want = bytes_of(&x[1]);
+        let root = build(g);
+        let order = preorder(&root);
+        let cross = Cross { a: Root(root.0.clone()), b: order[k - 1].clone() };
+        let res = guarded(|| {
+            let bytes = desert_core::serialize_to_byte_vec(&cross)?;
+            ARENA.with(|a| a.borrow_mut().clear());
+            let back: Cross = desert_core::deserialize(&want)?;
+            let border = preorder(&back.a);
+            Ok::<_, desert_core::Error>((bytes, canon(&back.a), Rc::ptr_eq(&border[k - 1].0, &back.b.0)))
+        });
+        match res {
+            Ok(Ok((bytes, c, same))) if bytes == want && c == case["canon"] && same => {}
+            other => r.finding("graph_cross", &["C10"], json!({"g": g, "k": k, "spec": want,
+                "impl": match other { Ok(Ok((b, _, same))) => json!({"bytes": b, "b_is_the_kth_object": same}), Ok(Err(e)) => json!(e.to_string()), Err(p) => json!({"panic": p}) }})),
+        }
     }
     // streams citing object numbers: the reference decoder's verdict
     let mut streams: Vec<(Vec<u8>, &Value)> = Vec::new();
